@@ -60,8 +60,17 @@ def as_set(adds):
 class Allow(e2.System):
     ops = OPS
 
+    def __init__(self):
+        import fickling.hook
+        import fickling.ml
+
+        pristine()
+        self.mstate = e2.ModuleState([fickling.hook, fickling.ml])
+
     def fresh(self):
         import fickling.ml as ml
+
+        self.mstate.restore()
 
         p = pristine()
         ml.ML_ALLOWLIST.clear()
